@@ -41,6 +41,9 @@ CAT = [
     ("entry", "conf", "a", [("t", "{5}")], "@conf{\xa0a\u2003, t\xa0= {5}}"),
     ("dupfield", "y", "b", [("x", "{1}"), ("x", "{2}")], "@y{b, x = {1},\u3000x\x0c= {2}}"),
     ("string", "s", "{nbsp}", "@string{\xa0s\xa0= {nbsp}}"),
+    # a key held twice by entries that refer to a string (what the first holder shows after resolution is what the wrapper exposes)
+    ("entry", "misc", "r", [("t", "s"), ("u", "{s}")], "@misc{r, t = s, u = {s}}"),
+    ("entry", "book", "r", [("v", "t")], "@book{r, v = t}"),
     # keys holding characters that mean something to %-formats, templates and regular expressions (DOI-like keys)
     ("entry", "misc", "10.1%2F%s(0)", [("t", "{6}")], "@misc{10.1%2F%s(0), t = {6}}"),
     ("entry", "book", "10.1%2F%s(0)", [("u", "{7}")], "@book{10.1%2F%s(0), u = {7}}"),
@@ -129,10 +132,19 @@ def check_doc(ids, sep, acc, case=None):
     skeys = [CAT[i][1] for i in ids if CAT[i][0] == "string"]
     collision = len(ekeys) != len(set(ekeys)) or len(skeys) != len(set(skeys)) or "dupfield" in kinds
     acc.case(sample=lambda: {"text": text}, nontrivial_key=text if collision else None)
-    for stack in ("default", "none", "copy") if len(ids) <= 3 else ("default", "none"):
+    first_string = {}
+    for i_ in ids:
+        if CAT[i_][0] == "string" and CAT[i_][1] not in first_string:
+            first_string[CAT[i_][1]] = CAT[i_][2]
+    for stack in ("default", "none", "copy", "copy-resolve") if len(ids) <= 3 else ("default", "none"):
         acc.trace()
         try:
-            lib = bibtexparser.parse_string(text) if stack == "default" else bibtexparser.parse_string(text, parse_stack=[] if stack == "none" else [CopyNop()])
+            if stack == "copy-resolve":
+                from bibtexparser.middlewares import ResolveStringReferencesMiddleware
+
+                lib = bibtexparser.parse_string(text, parse_stack=[ResolveStringReferencesMiddleware(allow_inplace_modification=False)])
+            else:
+                lib = bibtexparser.parse_string(text) if stack == "default" else bibtexparser.parse_string(text, parse_stack=[] if stack == "none" else [CopyNop()])
         except Exception as e:
             acc.exception(e, case, "parse_string", size=len(ids))
             continue
@@ -152,7 +164,13 @@ def check_doc(ids, sep, acc, case=None):
         ok = True
         for n, (i, b) in enumerate(zip(ids, blocks)):
             c = CAT[i]
-            val = (lambda v: strip1(v)) if stack == "default" else (lambda v: v)
+            # (a bare value naming a defined string holds the first definition's text where a resolver ran)
+            if stack == "default":
+                val = lambda v: strip1(first_string.get(v, v))
+            elif stack == "copy-resolve":
+                val = lambda v: first_string.get(v, v)
+            else:
+                val = lambda v: v
             if c[0] == "comment":
                 if not isinstance(b, ImplicitComment) or b.comment != c[1]:
                     bad("comment_kept", n, repr(b), c[1])
